@@ -792,8 +792,6 @@ func asymmetryClass(p genDecl) (string, []string) {
 	}
 	t := p.P.T
 	switch {
-	case p.Class == "bound-out-of-range":
-		return "C04 integer bound outside the range of its format is truncated by the compiler and read back changed", []string{item + ".integer.rules"}
 	case p.P.PK == PMap:
 		return "C04 map: rules, list rules and formats of the item schema are written on the entry's value field and not read back", []string{item}
 	case t.Kind == TKey && t.KF == KCustom:
